@@ -313,7 +313,7 @@ def Kind.fixedTag? : Kind → Option (List UInt8)
   | .dirnodeChildKey => some Hashutil.DIRNODE_CHILD_WRITECAP_TAG
   | .dirnodeChildSalt => some Hashutil.DIRNODE_CHILD_SALT_TAG
 
-/-- `some ()` unless the code raises for these arguments -/
+/-- the tag fed (netstring-wrapped) to the hasher; `none` where the code raises for these arguments -/
 def Deriv.tag : Deriv → Option (List UInt8)
   | .convergence k n s _ c => convergenceHasherTag k n s c
   | .clientRenewal s => some s
